@@ -1,6 +1,7 @@
 #!/usr/bin/env python3
 """tree.rs -> Tables/StateTreeConsts.v  (DELAY_ADDITIONAL_OFFSET)"""
 import re, sys
+TARGET = "StateTreeConsts.v"
 def generate(repo):
     src = open(f"{repo}/crates/lib/mimium-lang/state-tree/src/tree.rs").read()
     m = re.findall(r"pub const DELAY_ADDITIONAL_OFFSET\s*:\s*usize\s*=\s*(\d+)\s*;", src)
